@@ -287,9 +287,9 @@ def audit(prop, modules, theorems, timeout=1500):
     seen = {}
     # messages may span several lines: join then split on the theorem marker
     flat = re.sub(r"\s+", " ", log)
-    for m in re.finditer(r"'([^']+)' depends on axioms: \[([^\]]*)\]", flat):
+    for m in re.finditer(r"'(\S+)' depends on axioms: \[([^\]]*)\]", flat):
         seen[m.group(1)] = {a.strip() for a in m.group(2).split(",") if a.strip()}
-    for m in re.finditer(r"'([^']+)' does not depend on any axioms", flat):
+    for m in re.finditer(r"'(\S+)' does not depend on any axioms", flat):
         seen[m.group(1)] = set()
     for t in theorems:
         if t not in seen:
